@@ -281,6 +281,19 @@ func (g *Gen) genTypes() {
 			}
 			ud.Cases = append(ud.Cases, c)
 		}
+		if i == 0 && g.P.CompositeEq && g.P.Name == "c01" {
+			// the first union always has a case whose payload is a slice (a value Go's == cannot
+			// compare): it is the type of Rw's field below
+			has := false
+			for _, c := range ud.Cases {
+				if c.Payload != nil && c.Payload.K == KSlice {
+					has = true
+				}
+			}
+			if !has {
+				ud.Cases[g.R.Intn(len(ud.Cases))].Payload = TSlice(TInt)
+			}
+		}
 		g.unions = append(g.unions, ud)
 		g.add(ud)
 	}
@@ -646,7 +659,11 @@ func (g *Gen) genGenericHelpers() {
 func (g *Gen) genTopVar() {
 	t := core.Pick(g.R, []*Type{TInt, TString, TBool, TSlice(TInt)})
 	sc := &scope{goNames: map[string]bool{}}
-	if g.R.Chance(0.35) {
+	pm, pn := 0.35, 0.6
+	if g.P.TopVarsMin > 0 {
+		pm, pn = 0.6, 0.85 // (C07's pools: the root scope is where a leak reaches every later definition)
+	}
+	if g.R.Chance(pm) {
 		// the right-hand side is directly a match: its arms are parsed in the root scope. The
 		// binder often reuses the name of an earlier top-level variable of another type.
 		ud := core.Pick(g.R, g.unions)
@@ -660,7 +677,7 @@ func (g *Gen) genTopVar() {
 			ci := core.Pick(g.R, withPayload)
 			pt := ud.Cases[ci].Payload
 			bind := g.fresh("b")
-			if g.R.Chance(0.6) {
+			if g.R.Chance(pn) {
 				for _, gv := range g.gvars {
 					if !gv.T.Eq(pt) {
 						bind = gv.Name
@@ -932,6 +949,68 @@ func (g *Gen) genRun() {
 	g.add(&FuncDef{Name: "Run", Ret: TUnit, Body: &Block{Stmts: rs, Result: call("trace", &StrLit{"end"})}})
 }
 
+// shadowProbe appends `let v = match <union value> with | C o -> show_T o | _ -> if c then o else "lit"`
+// where the binder o of the first arm has the name of an OUTER string variable and another type:
+// after that arm the outer variable is used where its type shows (a branch of an if). Reports
+// false when the scope offers no such variable / union.
+func (g *Gen) shadowProbe(b *Block, sc *scope, fx bool, out *struct {
+	idx  int
+	used []*bool
+}) bool {
+	var outer *vinfo
+	for _, vi := range sc.visible(nil) {
+		vi := vi
+		if vi.t.K == KString && !sc.goNames[vi.name] {
+			outer = &vi
+		}
+	}
+	if outer == nil {
+		return false
+	}
+	_ = outer
+	m := g.shadowProbeExpr(sc, fx)
+	if m == nil {
+		return false
+	}
+	name := g.letName(sc)
+	b.Stmts = append(b.Stmts, &Let{name, m})
+	u := sc.add(name, TString)
+	out.idx, out.used = len(b.Stmts)-1, []*bool{u}
+	return true
+}
+
+// shadowProbeExpr builds the match of shadowProbe (a string-valued expression), or nil.
+func (g *Gen) shadowProbeExpr(sc *scope, fx bool) Expr {
+	var outer *vinfo
+	for _, vi := range sc.visible(nil) {
+		vi := vi
+		if vi.t.K == KString && !sc.goNames[vi.name] {
+			outer = &vi
+		}
+	}
+	if outer == nil {
+		return nil
+	}
+	for _, ud := range g.unions {
+		if ud.Generic || len(ud.Cases) < 2 {
+			continue
+		}
+		for ci, c := range ud.Cases {
+			if c.Payload == nil || c.Payload.K == KString || c.Payload.K == KFunc || g.shows[c.Payload.String()] == "" {
+				continue
+			}
+			target := g.lit(TUnion(ud.Name), sc, 2, fx)
+			m := &MatchU{Target: target, Union: ud,
+				Arms:    []UArm{{Case: ci, Bind: outer.name, Body: ExprBlock(g.show(c.Payload, v(outer.name)))}},
+				Default: ExprBlock(&If{Cond: g.expr(TBool, sc, 1, false), Then: ExprBlock(v(outer.name)), Else: ExprBlock(&StrLit{g.strLitVal()})})}
+			*outer.used = true
+			g.feat("shadow-probe-match")
+			return m
+		}
+	}
+	return nil
+}
+
 // ---- blocks -----------------------------------------------------------------------
 
 // block generates a block of type t. newGo says whether the block is a new Go scope
@@ -950,6 +1029,10 @@ func (g *Gen) block(t *Type, outer *scope, d int, fx bool, funcTop bool) *Block 
 		used []*bool
 	}
 	var pend []pending
+	var pend0 struct {
+		idx  int
+		used []*bool
+	}
 	ns := 0
 	if d > 0 {
 		ns = g.R.Intn(3)
@@ -960,6 +1043,9 @@ func (g *Gen) block(t *Type, outer *scope, d int, fx bool, funcTop bool) *Block 
 	innerUsed := map[string]*InnerFun{}
 	for i := 0; i < ns; i++ {
 		switch k := g.R.Intn(10); {
+		case k < 5 && g.P.Shadow && !g.P.NoMatch && !g.P.NoIf && !g.P.LetRhsInline && g.R.Chance(0.12) && g.shadowProbe(b, sc, fx, &pend0):
+			// (statement appended by shadowProbe)
+			pend = append(pend, pending{pend0.idx, pend0.used})
 		case k < 5: // let
 			vt := g.pickValueType()
 			var e Expr
@@ -1087,7 +1173,13 @@ func (g *Gen) block(t *Type, outer *scope, d int, fx bool, funcTop bool) *Block 
 			b.Result = g.blockExpr(t, sc, d-1, fx)
 		}
 	} else {
-		b.Result = g.blockExpr(t, sc, d-1, fx)
+		if t.K == KString && d >= 1 && g.P.Shadow && g.P.LetRhsInline && !g.P.NoMatch && !g.P.NoIf && g.R.Chance(0.2) {
+			// profiles whose let takes one-line right-hand sides only: the shadow probe is the block result
+			b.Result = g.shadowProbeExpr(sc, fx)
+		}
+		if b.Result == nil {
+			b.Result = g.blockExpr(t, sc, d-1, fx)
+		}
 	}
 	// every binding must be used: observe unused ones (effects allowed) or drop them
 	// (pure). Usage is computed on the finished syntax tree, last statement first,
@@ -1304,6 +1396,7 @@ func (g *Gen) matchU(t *Type, sc *scope, d int, fx bool) Expr {
 		return nil
 	}
 	m := &MatchU{Target: target, Union: ud}
+	shadowedOuter, shadowArm := "", -1
 	order := make([]int, len(ud.Cases))
 	for i := range order {
 		order[i] = i
@@ -1340,13 +1433,21 @@ func (g *Gen) matchU(t *Type, sc *scope, d int, fx bool) Expr {
 					asp = 0.1
 				}
 				if g.P.Shadow && g.R.Chance(asp) {
-					var cands []string
+					var cands, sameAsResult []string
 					for _, vi := range sc.visible(nil) {
 						if !vi.t.Eq(c.Payload) && vi.t.K != KFunc {
 							cands = append(cands, vi.name)
+							if vi.t.Eq(t) {
+								sameAsResult = append(sameAsResult, vi.name)
+							}
 						}
 					}
-					if len(cands) > 0 {
+					if len(sameAsResult) > 0 && shadowedOuter == "" {
+						// an outer variable of the match's own result type: a later arm will yield it
+						arm.Bind = core.Pick(g.R, sameAsResult)
+						shadowedOuter, shadowArm = arm.Bind, len(m.Arms)
+						g.feat("arm-binder-shadows-other-type")
+					} else if len(cands) > 0 {
 						arm.Bind = core.Pick(g.R, cands)
 						g.feat("arm-binder-shadows-other-type")
 					}
@@ -1356,6 +1457,9 @@ func (g *Gen) matchU(t *Type, sc *scope, d int, fx bool) Expr {
 		}
 		arm.Body = g.block(t, asc, d-1, fx, true)
 		if used != nil && !FreeInBlock(arm.Body, arm.Bind) {
+			if shadowedOuter == arm.Bind && shadowArm == len(m.Arms) {
+				shadowedOuter = "" // the binder is dropped: nothing is shadowed after all
+			}
 			arm.Bind = "_"
 		} else if used != nil {
 			g.feat("match-arm-binds-payload")
@@ -1367,6 +1471,25 @@ func (g *Gen) matchU(t *Type, sc *scope, d int, fx bool) Expr {
 		g.feat("union-match-default")
 	} else {
 		g.feat("union-match-exhaustive")
+	}
+	if shadowedOuter != "" {
+		// after the arm whose binder shadowed it, the OUTER variable is used again where its type
+		// shows: as one branch of an if in a later arm (or in the default arm)
+		var later *Block
+		if shadowArm+1 < len(m.Arms) {
+			later = m.Arms[shadowArm+1].Body
+		} else if m.Default != nil {
+			later = m.Default
+		}
+		if later != nil && inlineOK(later.Result) {
+			for _, vi := range sc.visible(nil) {
+				if vi.name == shadowedOuter {
+					*vi.used = true
+				}
+			}
+			later.Result = &If{Cond: g.expr(TBool, sc, 1, false), Then: ExprBlock(v(shadowedOuter)), Else: ExprBlock(later.Result)}
+			g.feat("shadowed-outer-variable-used-in-a-later-arm")
+		}
 	}
 	return m
 }
@@ -1916,7 +2039,7 @@ func (g *Gen) strExpr(sc *scope, d int, fx bool, k int) Expr {
 }
 
 func (g *Gen) eqType() *Type {
-	if g.P.CompositeEq && g.P.Name == "c01" && g.R.Chance(0.12) {
+	if g.P.CompositeEq && g.P.Name == "c01" && g.R.Chance(0.25) {
 		return TRec("Rw")
 	}
 	if g.P.CompositeEq && g.R.Chance(0.5) {
